@@ -17,7 +17,7 @@
 From Coq Require Import List NArith ZArith.
 From Coq.Strings Require Import Byte.
 From SP Require Import Bytes Params Msgpack Crypto Errors Packets Chunker Rand Verify Encrypt Decrypt Signcrypt
-     SignAuthProofs ScAuthProofs ScAuthLocated.
+     SignAuthProofs ScAuthProofs ScAuthLocated ScAnonLocated.
 From SP Require Import Nonce Packets Signcrypt GoLang GoLang2 GoAst GoAstProofs GoAstProofs2 GoAstProofs3 GoAstProofs4b.
 From SP Require Import GoAstRecv.
 From Coq Require String.
@@ -97,6 +97,68 @@ Theorem C04_source_signcrypt_loop_is_step (c : crypto) (fuel : nat) (pkey : byte
   end.
 Proof. exact (sc_open_loop_step c fuel pkey signer hh n input acc). Qed.
 
+
+(* ---- ANONYMOUS SENDER: "an anonymous-sender message promises only integrity against parties who lack the payload
+   key".  Reduction with located breaks, for EVERY input: what the opener releases under the anonymous sender is a
+   prefix (all of it on a clean end) of the chunks of ONE anonymous message of the honest history whose header bytes are
+   the input's (so the payload key the receiver derived is that message's) - or one of the (key, nonce, ciphertext)
+   triples THE RECEIVER ACTUALLY OPENED on this input opens although no honest sender sealed it (a secretbox forgery,
+   located in [sc_anon_opened_boxes], which mirrors the receive loop), or two different strings - one the receiver hashed
+   on this input, one an honest header - agree on the 127 bits of SHA-512 that reach the packet nonce.  (Only those 127
+   bits bind an anonymous message to its header: nonce.go copies headerHash[:16] and overwrites one bit, as the
+   specification says; ScAnonLocated.sc_anon_full_collision_insufficient shows the statement with a full collision
+   would be FALSE.)  Hypotheses on the primitives: SHA-512 outputs have 64 bytes; secretbox is functionally correct
+   (opening a sealed box gives the plaintext back - needed: ScAnonLocated.sc_anon_needs_sb_correctness).  The history
+   holds no events by other recipients of the same message: they know the payload key and CAN forge an anonymous
+   message (ScAnonLocated.sc_anon_insider_forgery_accepted, evaluated on the toy primitives) - the documented limit of
+   anonymous mode, which the property text states. *)
+Section C04_anonymous.
+Variable c : crypto.
+Hypothesis Hsha : forall x, length (sha512 c x) = 64%nat.
+Hypothesis Hsb : forall k n m, sb_open c k n (sb_seal c k n m) = Some m.
+
+Theorem C04_anonymous_integrity (kr : keyring) (signers : sigring) (rv : resolver) (input : bytes)
+        (out : stream_out) (M : list sc_anon_msg) :
+  Forall sam_ok M -> sam_headers_distinct M ->
+  signcrypt_open_stream c kr signers rv input = Ok (None, out) ->
+  (so_chunks out = [] /\ so_end out <> EOF) \/
+  (exists m hb rest,
+      In m M /\ read_header_bytes input = Ok (hb, rest) /\ hb = sam_header m /\
+      sc_receiver_state c kr signers rv input = Some (sha512 c hb, sam_pkey m, rest) /\
+      list_prefix (so_chunks out) (map fst (sam_packets m)) /\
+      (so_end out = EOF -> so_chunks out = map fst (sam_packets m)))
+  \/ ScAnonBreakL c kr signers rv M input.
+Proof. exact (signcrypt_anon_authentic_located c Hsha Hsb kr signers rv input out M). Qed.
+
+Theorem C04_anonymous_all_at_once (kr : keyring) (signers : sigring) (rv : resolver) (input : bytes)
+        (pt : bytes) (M : list sc_anon_msg) :
+  Forall sam_ok M -> sam_headers_distinct M ->
+  signcrypt_open_all c kr signers rv input = Ok (None, pt) ->
+  (exists m hb rest,
+      In m M /\ read_header_bytes input = Ok (hb, rest) /\ hb = sam_header m /\
+      sc_receiver_state c kr signers rv input = Some (sha512 c hb, sam_pkey m, rest) /\
+      pt = concat (map fst (sam_packets m)))
+  \/ ScAnonBreakL c kr signers rv M input.
+Proof. exact (signcrypt_anon_authentic_all_located c Hsha Hsb kr signers rv input pt M). Qed.
+End C04_anonymous.
+
+(* what a located break is, in plain terms; and the nonce depends on the header hash exactly through those 127 bits *)
+Theorem C04_anonymous_break_meaning (c : crypto) (kr : keyring) (signers : sigring) (rv : resolver)
+        (M : list sc_anon_msg) (input : bytes) :
+  ScAnonBreakL c kr signers rv M input ->
+  (exists k nonce ct, sb_open c k nonce ct <> None /\ ~ In (k, nonce, ct) (sc_hist_sealed c M)) \/
+  (exists x y, x <> y /\ sc_nonce_prefix (sha512 c x) = sc_nonce_prefix (sha512 c y)).
+Proof. exact (anon_located_implies_unlocated c kr signers rv M input). Qed.
+
+Theorem C04_anonymous_nonce_prefix (hh hh' : bytes) :
+  sc_nonce_prefix hh = sc_nonce_prefix hh' <->
+  (forall (f : bool) (i : N), nonce_chunk_signcryption hh f i = nonce_chunk_signcryption hh' f i).
+Proof. exact (sc_nonce_prefix_spec hh hh'). Qed.
+
+Print Assumptions C04_anonymous_integrity.
+Print Assumptions C04_anonymous_all_at_once.
+Print Assumptions C04_anonymous_break_meaning.
+Print Assumptions C04_anonymous_nonce_prefix.
 Print Assumptions C04_source_signcrypt_getNextChunk.
 Print Assumptions C04_source_signcrypt_loop_is_step.
 Print Assumptions C04_source_signcrypt_processBlock.
@@ -117,3 +179,111 @@ Example C04_ex_genuine :
   | Err _ => None
   end = Some (Some (ed_pub toy_crypto (repeat x07 64)), [[x68; x69]], EOF).
 Proof. vm_compute. reflexivity. Qed.
+
+(* ===== BEGIN props/C04.v ===== *)
+(* ---- END TO END (source level): what the TRANSLATED saltpack.SigncryptOpen / NewSigncryptOpenStream release under a named
+   sender was signcrypted by that sender (go_SigncryptOpen + scopen_outcome_model / go_NewSigncryptOpenStream + the per-chunk
+   tie on the constructor's object, with C04_all_at_once / C04_authentic); for the ANONYMOUS sender: integrity against
+   parties who lack the payload key (ScAnonLocated.signcrypt_anon_authentic_all_located / _located: secretbox forgery or a
+   collision on the 127 bits of the header hash the nonce carries).  proofs/GoEndToEndAuth.v. ---- *)
+From SP Require GoAstOpen GoAstRecv GoAstProofs4b GoAstProofs5a GoAstProofs7c ScAnonLocated GoEndToEndAuth.
+Section C04_source_end_to_end.
+Import GoLang GoLang2 GoAstOpen GoAstRecv GoAstProofs4b GoAstProofs7c ScAnonLocated GoEndToEndAuth.
+Local Open Scope string_scope.
+
+Theorem C04_source_end_to_end_SigncryptOpen (c : crypto) (Hsha : forall x, List.length (sha512 c x) = 64%nat)
+        (kr : keyring) (signers : sigring) (rv : resolver) (KR RV : gval) (input pk pt : bytes)
+        (M : list sc_msg) (others : list sign_event) :
+  Forall sm_ok M -> sm_headers_distinct M -> Forall other_ok others ->
+  (N.of_nat (List.length input) < 18446744073709551616)%N ->
+  scopen_class (fst (run_func2 (ext_scopen c kr signers rv) f_saltpack_SigncryptOpen [VBytes input; KR; RV])) = Ok (Some pk, pt) ->
+  (exists m, In m M /\ pt = List.concat (map fst (sm_packets m)))
+  \/ ScBreakL c kr signers rv pk M others input.
+Proof. exact (go_SigncryptOpen_authentic c Hsha kr signers rv KR RV input pk pt M others). Qed.
+
+Theorem C04_source_end_to_end_SigncryptOpen_nil_error (c : crypto) (Hsha : forall x, List.length (sha512 c x) = 64%nat)
+        (kr : keyring) (signers : sigring) (rv : resolver) (KR RV : gval) (input pk : bytes)
+        (body : gval) (M : list sc_msg) (others : list sign_event) :
+  Forall sm_ok M -> sm_headers_distinct M -> Forall other_ok others ->
+  (N.of_nat (List.length input) < 18446744073709551616)%N ->
+  fst (run_func2 (ext_scopen c kr signers rv) f_saltpack_SigncryptOpen [VBytes input; KR; RV]) = ORet [VBytes pk; body; VNil] ->
+  exists pt, body = VBytes pt /\
+    ((exists m, In m M /\ pt = List.concat (map fst (sm_packets m)))
+     \/ ScBreakL c kr signers rv pk M others input).
+Proof. exact (go_SigncryptOpen_authentic_nil_error c Hsha kr signers rv KR RV input pk body M others). Qed.
+
+Theorem C04_source_end_to_end_SigncryptOpen_anonymous (c : crypto) (Hsha : forall x, List.length (sha512 c x) = 64%nat)
+        (Hsb : forall k n m, sb_open c k n (sb_seal c k n m) = Some m)
+        (kr : keyring) (signers : sigring) (rv : resolver) (KR RV : gval) (input pt : bytes) (M : list sc_anon_msg) :
+  Forall (sam_ok) M -> sam_headers_distinct M ->
+  scopen_class (fst (run_func2 (ext_scopen c kr signers rv) f_saltpack_SigncryptOpen [VBytes input; KR; RV])) = Ok (None, pt) ->
+  (exists m hb rest,
+      In m M /\ read_header_bytes input = Ok (hb, rest) /\ hb = sam_header m /\
+      sc_receiver_state c kr signers rv input = Some (sha512 c hb, sam_pkey m, rest) /\
+      pt = List.concat (map fst (sam_packets m)))
+  \/ ScAnonBreakL c kr signers rv M input.
+Proof. exact (go_SigncryptOpen_anonymous_authentic c Hsha Hsb kr signers rv KR RV input pt M). Qed.
+
+Theorem C04_source_end_to_end_SigncryptOpen_anonymous_nil_error (c : crypto) (Hsha : forall x, List.length (sha512 c x) = 64%nat)
+        (Hsb : forall k n m, sb_open c k n (sb_seal c k n m) = Some m)
+        (kr : keyring) (signers : sigring) (rv : resolver) (KR RV : gval) (input : bytes) (body : gval) (M : list sc_anon_msg) :
+  Forall (sam_ok) M -> sam_headers_distinct M ->
+  fst (run_func2 (ext_scopen c kr signers rv) f_saltpack_SigncryptOpen [VBytes input; KR; RV]) = ORet [VNil; body; VNil] ->
+  exists pt, body = VBytes pt /\
+    ((exists m hb rest,
+        In m M /\ read_header_bytes input = Ok (hb, rest) /\ hb = sam_header m /\
+        sc_receiver_state c kr signers rv input = Some (sha512 c hb, sam_pkey m, rest) /\
+        pt = List.concat (map fst (sam_packets m)))
+     \/ ScAnonBreakL c kr signers rv M input).
+Proof. exact (go_SigncryptOpen_anonymous_authentic_nil_error c Hsha Hsb kr signers rv KR RV input body M). Qed.
+
+Theorem C04_source_end_to_end_NewSigncryptOpenStream (c : crypto) (Hsha : forall x, List.length (sha512 c x) = 64%nat)
+        (kr : keyring) (signers : sigring) (rv : resolver) (r KR RV : gval) (input pk : bytes)
+        (rdr : gval) (M : list sc_msg) (others : list sign_event) :
+  Forall sm_ok M -> sm_headers_distinct M -> Forall other_ok others ->
+  (N.of_nat (List.length input) < 18446744073709551616)%N ->
+  rdr_bytes r = Some input ->
+  fst (run_func2 (ext_nsos c kr signers rv) f_saltpack_NewSigncryptOpenStream [r; KR; RV]) = ORet [VBytes pk; rdr; VNil] ->
+  exists obj,
+    rdr = g_cr_new obj /\
+    forall F, (N.of_nat F <= 18446744073709551616)%N ->
+      let d := go_drain (ext_chunk c TSigncryptionBlock) f_saltpack_signcryptOpenStream_getNextChunk "sos" F obj in
+      exists chunks tl,
+        fst d = (chunks ++ tl)%list /\ (tl = [] \/ tl = [[]]) /\
+        ((chunks = [] /\ snd d <> Some (VErr "io.EOF" [])) \/
+         (exists m hb rest,
+             In m M /\ read_header_bytes input = Ok (hb, rest) /\ hb = sm_header m /\
+             list_prefix chunks (map fst (sm_packets m)) /\
+             (snd d = Some (VErr "io.EOF" []) -> chunks = map fst (sm_packets m)))
+         \/ ScBreakL c kr signers rv pk M others input).
+Proof. exact (go_NewSigncryptOpenStream_authentic c Hsha kr signers rv r KR RV input pk rdr M others). Qed.
+
+Theorem C04_source_end_to_end_NewSigncryptOpenStream_anonymous (c : crypto) (Hsha : forall x, List.length (sha512 c x) = 64%nat)
+        (Hsb : forall k n m, sb_open c k n (sb_seal c k n m) = Some m)
+        (kr : keyring) (signers : sigring) (rv : resolver) (r KR RV : gval) (input : bytes) (rdr : gval) (M : list sc_anon_msg) :
+  Forall sam_ok M -> sam_headers_distinct M ->
+  (N.of_nat (List.length input) < 18446744073709551616)%N ->
+  rdr_bytes r = Some input ->
+  fst (run_func2 (ext_nsos c kr signers rv) f_saltpack_NewSigncryptOpenStream [r; KR; RV]) = ORet [VNil; rdr; VNil] ->
+  exists obj,
+    rdr = g_cr_new obj /\
+    forall F, (N.of_nat F <= 18446744073709551616)%N ->
+      let d := go_drain (ext_chunk c TSigncryptionBlock) f_saltpack_signcryptOpenStream_getNextChunk "sos" F obj in
+      exists chunks tl,
+        fst d = (chunks ++ tl)%list /\ (tl = [] \/ tl = [[]]) /\
+        ((chunks = [] /\ snd d <> Some (VErr "io.EOF" [])) \/
+         (exists m hb rest,
+             In m M /\ read_header_bytes input = Ok (hb, rest) /\ hb = sam_header m /\
+             sc_receiver_state c kr signers rv input = Some (sha512 c hb, sam_pkey m, rest) /\
+             list_prefix chunks (map fst (sam_packets m)) /\
+             (snd d = Some (VErr "io.EOF" []) -> chunks = map fst (sam_packets m)))
+         \/ ScAnonBreakL c kr signers rv M input).
+Proof. exact (go_NewSigncryptOpenStream_anonymous_authentic c Hsha Hsb kr signers rv r KR RV input rdr M). Qed.
+End C04_source_end_to_end.
+Print Assumptions C04_source_end_to_end_SigncryptOpen.
+Print Assumptions C04_source_end_to_end_SigncryptOpen_nil_error.
+Print Assumptions C04_source_end_to_end_SigncryptOpen_anonymous.
+Print Assumptions C04_source_end_to_end_SigncryptOpen_anonymous_nil_error.
+Print Assumptions C04_source_end_to_end_NewSigncryptOpenStream.
+Print Assumptions C04_source_end_to_end_NewSigncryptOpenStream_anonymous.
+
